@@ -213,7 +213,7 @@ def run(ctx):
         return
     jobs = [(k, False, 0) for k in C.WORLD_KINDS]
     jobs += [(k, True, 0) for k in ('overlay_conflict', 'overlay_patch_fail', 'overlay_baseline_missing', 'ro_target', 'conflict', 'snapshot_corrupt')]
-    nh = 10 if quick else 120
+    nh = 20 if quick else 120
     for i in range(nh):
         jobs.append((ctx.rng.choice(['deployed', 'pending', 'fresh', 'pending', 'nomanifest', 'bootstrapped']), False, ctx.rng.randrange(2, 6)))
     seeds = [ctx.rng.randrange(1 << 30) for _ in jobs]
